@@ -285,6 +285,27 @@ func (t *termer) load(addr ssa.Value, v ssa.Value, ctx *Ctx) *Term {
 			}
 		}
 		_ = other
+		partial := false
+		for _, r := range *a.Referrers() {
+			switch fa := r.(type) {
+			case *ssa.FieldAddr:
+				for _, rr := range *fa.Referrers() {
+					if s, ok := rr.(*ssa.Store); ok && s.Addr == fa {
+						partial = true
+					}
+				}
+			case *ssa.IndexAddr:
+				for _, rr := range *fa.Referrers() {
+					if s, ok := rr.(*ssa.Store); ok && s.Addr == fa {
+						partial = true
+					}
+				}
+			}
+		}
+		if partial {
+			// the variable is also written field-wise: its value is not that of the whole store
+			return mk("load", "", v, ctx, t.alloc(a, ctx))
+		}
 		if len(stores) == 1 {
 			return t.term(stores[0].Val, ctx)
 		}
